@@ -692,6 +692,27 @@ def compare(world, ex, opname, a, b):
         return z3.And(z3.IsSubset(zb, za), za != zb)
     elif a is None or b is None or is_ty(a) or is_ty(b):
         raise PyRaise(ExcVal("TypeError", ("unorderable",)))
+    elif isinstance(a, (tuple, list)) and isinstance(b, (tuple, list)) and type(a) is type(b):
+        # lexicographic order of sequences
+        def z(c):
+            return c if is_z3(c) else z3.BoolVal(bool(c))
+
+        def lt(i):
+            if i >= len(a) or i >= len(b):
+                return z3.BoolVal(len(a) < len(b))
+            return z3.Or(z(compare(world, ex, "<", a[i], b[i])), z3.And(z(_eq(world, ex, a[i], b[i])), lt(i + 1)))
+
+        def eq_all():
+            if len(a) != len(b):
+                return z3.BoolVal(False)
+            return z3.And([z(_eq(world, ex, x, y)) for x, y in zip(a, b)]) if a else z3.BoolVal(True)
+        if opname == "<":
+            return z3.simplify(lt(0))
+        if opname == "<=":
+            return z3.simplify(z3.Or(lt(0), eq_all()))
+        if opname == ">":
+            return z3.simplify(z3.Not(z3.Or(lt(0), eq_all())))
+        return z3.simplify(z3.Not(lt(0)))
     else:
         raise Unsupported("ordering of %s and %s" % (pykind(world, a), pykind(world, b)))
     return {"<": x < y, "<=": x <= y, ">": x > y, ">=": x >= y}[opname]
